@@ -545,6 +545,7 @@ func runC08(c *Ctx, r *Report) {
 	c08SharedReplacer(c, r, "C08.R17")
 	c08PoolNewFresh(c, r, "C08.R18")
 	c09R2(c, r, "C08.R19") // a client talks to its own association only: the table of associations belongs to one socket's loop and is keyed by the client address alone within it
+	c08AfterHandOff(c, r, "C08.R20")
 	c08QuicAddr(c, r, "C08.R11")
 	c09R6(c, r, "C08.R12")     // a UDP client never reads another client's datagram: queued datagram records do not alias
 	c17Handle(c, r, "C08.R10") // per-connection state of a handler (the throttle's own limiter) is built per connection, only the handler-wide limiter is shared
@@ -1155,6 +1156,7 @@ func runC09(c *Ctx, r *Report) {
 	c09DiscardOnlyUnaddressed(c, r, "C09.R21")
 	c05UDPWaits(c, r, "C09.R22")    // a wait that nothing but a datagram ends keeps the association (and its table entry) for ever
 	c09FreshAfterEnd(c, r, "C09.R23")
+	c09IdleTimerDrained(c, r, "C09.R24")
 	c05R7(c, r, "C09.R12")          // setting the deadline of a virtual connection never blocks (the association's handler, its queue and then the server loop would wait with it)
 	c05UDPDeadline(c, r, "C09.R13") // ... and arms the timer that wakes a waiting Read
 }
@@ -1308,6 +1310,29 @@ func c09R2(c *Ctx, r *Report, rule string) {
 								for _, o := range origins(base, sliceOpts{}) {
 									if _, ok := o.V.(*ssa.Select); ok || o.Kind == "other" && strings.Contains(o.Desc, "Select") {
 										fromSelect = true
+									}
+									// in a helper the connection is a parameter: what every caller passes
+									if par, isPar := o.V.(*ssa.Parameter); isPar && par.Parent() != nil {
+										h := par.Parent()
+										sites, escapes := c.callSitesOf(h)
+										idx := paramIndex(h, par)
+										all := !escapes && len(sites) > 0 && idx >= 0
+										for _, cs := range sites {
+											got := false
+											if all && idx < len(cs.Common().Args) {
+												for _, o2 := range origins(cs.Common().Args[idx], sliceOpts{}) {
+													if _, ok := o2.V.(*ssa.Select); ok || o2.Kind == "other" && strings.Contains(o2.Desc, "Select") {
+														got = true
+													}
+												}
+											}
+											if !got {
+												all = false
+											}
+										}
+										if all {
+											fromSelect = true
+										}
 									}
 								}
 							}
@@ -1978,6 +2003,7 @@ func runC13(c *Ctx, r *Report) {
 	defer c01TeeKeepsPipeOpen(c, r, "C13.R18") // a connection that falls through a tee to the wrapped listener is still read through the tee: the handler must not have closed the pipe
 	defer c01R5(c, r, "C13.R19")               // prefetched bytes are replayed to the consumer: a handler that hands on a new connection builds it on the connection it was given (Wrap of a wrapper that reads through it), not on the raw socket below the matching buffer
 	defer c06R4(c, r, "C13.R20")               // ... and replayed unaltered: nothing a matcher does writes into the matching buffer (a view of it is only read)
+	defer c08AfterHandOff(c, r, "C13.R21") // the hand-over is clean: the handler that handed the connection on no longer touches it
 	// R1
 	r.rule("C13.R1", "ListenerWrapper.Provision compiles its routes with listenerHandler as fallback", 1)
 	if fn := c.Fn("layer4.(*ListenerWrapper).Provision"); fn != nil {
